@@ -117,6 +117,10 @@ func (this *Node) walk(topic format.Topic, iterator NodeIterator) {
 	topic, token := topic.Next()
 	if token == "" {
 		iterator(this.Data)
+		// "sport/#" also matches "sport": the multi-level wildcard includes the parent level
+		if n, ok := this.Children[MWC]; ok {
+			iterator(n.Data)
+		}
 		return
 	}
 
